@@ -177,6 +177,14 @@ async fn udp_app(ix: usize, ops: Vec<UdpOp>, targets: Vec<UdpTarget>, via_port: 
     std::future::pending::<()>().await;
 }
 
+pub async fn udp_target_pub(ix: usize, t: UdpTarget, obs: Arc<Mutex<UdpObs>>) {
+    udp_target(ix, t, obs).await
+}
+
+pub async fn udp_app_pub(ix: usize, ops: Vec<UdpOp>, targets: Vec<UdpTarget>, via_port: u16, obs: Arc<Mutex<UdpObs>>) {
+    udp_app(ix, ops, targets, via_port, obs).await
+}
+
 pub struct UdpRun {
     pub startup_err: Option<String>,
     pub obs: UdpObs,
